@@ -1,48 +1,346 @@
+// crdsim: deterministic simulation driver for berquerant/crd.
+//
+//	crdsim check <property> <quick|thorough>
+//	crdsim replay <file>
+//	crdsim selftest [n]           determinism + fidelity self-tests
+//	crdsim instrument-report      print what the instrumenter did to the tree
+//
+// exit 0: property held on everything explored (KNOWN-FINDING lines possible)
+// exit 1: VIOLATION property=<id> replay=<path>
+// exit 2: infrastructure trouble (build, simulator incomplete, ...)
 package main
 
 import (
 	"encoding/json"
+	"io"
+	"errors"
 	"fmt"
 	"os"
+	"path/filepath"
+	"sort"
+	"strconv"
+	"time"
 
 	"verif/sim/harness"
 	"verif/sim/simrt"
 )
 
+func clip(b []byte) []byte {
+	if len(b) > 600 {
+		return b[:600]
+	}
+	return b
+}
+
+func env(k, d string) string {
+	if v := os.Getenv(k); v != "" {
+		return v
+	}
+	return d
+}
+
+func die(err error) {
+	fmt.Fprintln(os.Stderr, "crdsim:", err)
+	harness.CloseActive()
+	os.Exit(2)
+}
+
+func propertyByID(id string, st *harness.Stats) harness.Property {
+	switch id {
+	case "C12":
+		return harness.NewC12(st)
+	case "C09":
+		return harness.NewC09(st)
+	case "C04":
+		return harness.NewC04(st)
+	case "C14":
+		return harness.NewC14(st)
+	case "C06":
+		return harness.NewC06(st)
+	case "C08":
+		return harness.NewC08(st)
+	}
+	return nil
+}
+
 func main() {
 	if len(os.Args) < 2 {
-		fmt.Fprintln(os.Stderr, "usage: crdsim probe|check|replay ...")
+		fmt.Fprintln(os.Stderr, "usage: crdsim check <id> <quick|thorough> | replay <file> | selftest | instrument-report")
 		os.Exit(2)
 	}
+	repo := env("CRDSIM_REPO", "/repo")
+	verif := env("CRDSIM_VERIF", "/verif")
 	switch os.Args[1] {
-	case "probe":
-		env, err := harness.Build("/repo", "/verif")
-		if err != nil {
-			fmt.Fprintln(os.Stderr, err)
-			os.Exit(2)
+	case "check":
+		if len(os.Args) < 4 {
+			die(errors.New("usage: crdsim check <id> <quick|thorough>"))
 		}
-		defer env.Close()
-		rb, _ := json.MarshalIndent(env.Report, "", " ")
-		fmt.Println(string(rb))
-		fmt.Println("build s:", env.BuildS)
-		for _, pol := range []string{"sorted", "shuffle", "reverse"} {
-			st := &harness.Step{Step: simrt.Step{Argv: []string{"info", "key", "conv", "--key", "E", "-c", "d"}, Seed: 7, MapPolicy: pol}}
-			r, err := env.Exec(st)
-			if err != nil {
-				fmt.Fprintln(os.Stderr, err)
-				os.Exit(2)
-			}
-			jb, _ := json.Marshal(r.Journal)
-			fmt.Printf("exit=%d stdout=%q stderr=%q\n%s\n", r.Exit, r.Stdout, r.Stderr, jb)
+		os.Exit(check(repo, verif, os.Args[2], os.Args[3]))
+	case "replay":
+		if len(os.Args) < 3 {
+			die(errors.New("usage: crdsim replay <file>"))
 		}
-		st := &harness.Step{Step: simrt.Step{Argv: []string{"text", "conv", "syllable"}, Seed: 7, SchedPolicy: "random",
-			Stdin: &simrt.Stream{Data: []byte("C[1] G_7/B[1,1/2]{txt=hi} Am[2]"), Plan: simrt.Plan{Chunks: []int{1, 0, 2}}}}}
-		r, err := env.Exec(st)
+		os.Exit(replay(repo, verif, os.Args[2]))
+	case "selftest":
+		n := 300
+		if len(os.Args) > 2 {
+			n, _ = strconv.Atoi(os.Args[2])
+		}
+		os.Exit(selftest(repo, verif, n))
+	case "exec":
+		// crdsim exec <args...>: one simulated process, stdin from real stdin
+		e, err := harness.Build(repo, verif)
 		if err != nil {
-			fmt.Fprintln(os.Stderr, err)
-			os.Exit(2)
+			die(err)
+		}
+		defer e.Close()
+		in, _ := io.ReadAll(os.Stdin)
+		st := &harness.Step{Step: simrt.Step{Argv: os.Args[2:], Seed: seedFromEnv(), Stdin: &simrt.Stream{Data: in}, MapPolicy: os.Getenv("MAP"), SchedPolicy: os.Getenv("SCHED")}}
+		t0 := time.Now()
+		r, err := e.Exec(st)
+		if err != nil {
+			die(err)
 		}
 		jb, _ := json.Marshal(r.Journal)
-		fmt.Printf("exit=%d stdout=%q stderr=%q\n%s\n", r.Exit, r.Stdout, r.Stderr, jb)
+		fmt.Printf("exit=%d stage=%d budget=%d wall=%v\nstdout(%d)=%q\nstderr(%d)=%q\njournal=%s\n", r.Exit, r.Stage, r.Budget, time.Since(t0), len(r.Stdout), clip(r.Stdout), len(r.Stderr), clip(r.Stderr), jb)
+	case "instrument-report":
+		e, err := harness.Build(repo, verif)
+		if err != nil {
+			die(err)
+		}
+		defer e.Close()
+		b, _ := json.MarshalIndent(e.Report, "", " ")
+		fmt.Println(string(b))
+	default:
+		die(fmt.Errorf("unknown subcommand %q", os.Args[1]))
 	}
+}
+
+func seedFromEnv() uint64 {
+	s := os.Getenv("VERIF_SEED")
+	if s == "" {
+		return 1
+	}
+	v, err := strconv.ParseUint(s, 10, 64)
+	if err != nil {
+		iv, err2 := strconv.ParseInt(s, 10, 64)
+		if err2 != nil {
+			die(fmt.Errorf("VERIF_SEED=%q is not an integer", s))
+		}
+		v = uint64(iv)
+	}
+	return v
+}
+
+func check(repo, verif, id, tier string) int {
+	t0 := time.Now()
+	if t := os.Getenv("VERIF_TIER"); t != "" && tier == "" {
+		tier = t
+	}
+	if tier != "quick" && tier != "thorough" {
+		die(fmt.Errorf("tier must be quick or thorough"))
+	}
+	seed := seedFromEnv()
+	fmt.Printf("crdsim: property=%s tier=%s VERIF_SEED=%d\n", id, tier, seed)
+	st := harness.NewStats()
+	p := propertyByID(id, st)
+	if p == nil {
+		die(fmt.Errorf("unknown property %q", id))
+	}
+	e, err := harness.Build(repo, verif)
+	if err != nil {
+		die(err)
+	}
+	code := func() int {
+		defer e.Close()
+		fmt.Printf("crdsim: built instrumented and plain binaries in %.1fs (%d files, %d map sites, %d tick sites)\n",
+			e.BuildS, e.Report.Files, len(e.Report.Sites), e.Report.Counts["tick"])
+		for _, w := range e.Report.Warnings {
+			fmt.Println("crdsim: instrumenter warning:", w)
+		}
+		fid, err := harness.FidelityGate(e, seed)
+		if err != nil {
+			die(err)
+		}
+		if err := p.Prepare(e, tier, seed); err != nil {
+			die(err)
+		}
+		opt := harness.Options{Tier: tier, Seed: seed, VerifDir: verif, RepoDir: repo}
+		if s := os.Getenv("CRDSIM_MAXRUNS"); s != "" {
+			opt.MaxRuns, _ = strconv.Atoi(s)
+		}
+		rep, err := harness.RunCampaign(e, p, opt, st)
+		if err != nil {
+			var inf *harness.Infra
+			if errors.As(err, &inf) {
+				fmt.Println(inf.Msg)
+			}
+			die(err)
+		}
+		code := 0
+		for _, k := range rep.Known {
+			fmt.Printf("KNOWN-FINDING: property=%s %s [%s]\n", id, k.Finding.What, k.Finding.Signature)
+		}
+		var replayPaths []string
+		for _, v := range rep.Violations {
+			path, err := harness.WriteReplay(verif, v)
+			if err != nil {
+				die(err)
+			}
+			replayPaths = append(replayPaths, path)
+			fmt.Printf("VIOLATION property=%s replay=%s\n", id, path)
+			fmt.Printf("  signature: %s\n  detail: %s\n", v.Verdict.Signature, v.Verdict.Detail)
+			code = 1
+		}
+		wall := time.Since(t0).Seconds()
+		if err := writeEvidence(verif, p, e, st, tier, seed, wall, rep, fid, replayPaths); err != nil {
+			die(err)
+		}
+		fmt.Printf("crdsim: %s %s: %d cases, %d simulated processes (+%d plain), %d distinct non-trivial, %d violation(s), %d known finding(s), %.1fs\n",
+			id, tier, st.Cases, st.Procs, st.PlainProcs, len(st.Distinct), len(rep.Violations), len(rep.Known), wall)
+		return code
+	}()
+	return code
+}
+
+func writeEvidence(verif string, p harness.Property, e *harness.Env, st *harness.Stats, tier string, seed uint64, wall float64, rep *harness.Report, fid *harness.FidelityResult, replays []string) error {
+	mapSites := map[string]int{}
+	for id, m := range st.MapSigs {
+		mapSites[id] = len(m)
+	}
+	var known []string
+	for _, k := range rep.Known {
+		known = append(known, k.Finding.Signature)
+	}
+	sort.Strings(known)
+	procs := st.Procs
+	perHour := 0.0
+	if wall > 0 {
+		perHour = float64(procs) / wall * 3600
+	}
+	budgetRatio := 0.0
+	if e.TicksMax > 0 {
+		budgetRatio = float64(harness.BudgetFor(&harness.Step{})) / float64(e.TicksMax)
+	}
+	cov := map[string]any{
+		"evaluations":          procs + st.PlainProcs,
+		"distinct_nontrivial":  len(st.Distinct),
+		"rule":                 p.Rule(),
+		"samples":              st.Samples,
+		"cases":                st.Cases,
+		"simulated_processes":  procs,
+		"plain_processes":      st.PlainProcs,
+		"trivial_processes":    st.Trivial,
+		"processes_per_hour":   int64(perHour),
+		"seeds":                []uint64{seed},
+		"simulated_time_ticks": map[string]any{"total": e.TicksSum, "max_per_process": e.TicksMax, "min_hang_budget_over_max": budgetRatio, "needed_stage2": st.Stage2},
+		"faults_fired":         st.FaultFired,
+		"faults_configured":    st.FaultConf,
+		"map_order_signatures_per_site": mapSites,
+		"distinct_schedules":   len(st.SchedSigs),
+		"distinct_delivery_signatures": len(st.PlanSigs),
+		"commands":             st.CmdCount,
+		"outcomes":             st.ExitKinds,
+		"probes":               st.Probes,
+		"instrumenter":         map[string]any{"counts": e.Report.Counts, "map_sites": e.Report.Sites, "warnings": e.Report.Warnings},
+		"fidelity_gate":        fid,
+		"components": map[string]any{
+			"real": []string{"all crd packages (instrumented: same statements plus seam calls)", "ybase lexer base", "yaml.v3", "cobra/pflag", "gomidi smf writer/reader", "Go runtime", "real fd 1/2 and real exit status"},
+			"stub": []string{"stdin and file opens/creates (simulated streams, virtual file map)", "goroutine hand-over, channels, mutexes (simulated primitives with Go semantics, baton scheduler)", "map iteration order (seeded permutation of the real map's keys)", "RLIMIT_AS as the allocator limit"},
+			"not_exercised": []string{"crd write play, crd midi port (real-time playback)"},
+		},
+		"known_findings_matched": known,
+		"replays":                replays,
+	}
+	for k, v := range p.Extra() {
+		cov[k] = v
+	}
+	ev := map[string]any{
+		"property_id": p.ID(),
+		"tier":        tier,
+		"seed":        seed,
+		"level":       p.Level(),
+		"coverage":    cov,
+		"assumptions": p.Assumptions(),
+		"wall_s":      wall,
+		"violations":  len(rep.Violations),
+	}
+	b, err := json.MarshalIndent(ev, "", " ")
+	if err != nil {
+		return err
+	}
+	dir := filepath.Join(verif, "evidence")
+	if err := os.MkdirAll(dir, 0o755); err != nil {
+		return err
+	}
+	return os.WriteFile(filepath.Join(dir, p.ID()+".json"), b, 0o644)
+}
+
+func replay(repo, verif, file string) int {
+	b, err := os.ReadFile(file)
+	if err != nil {
+		die(err)
+	}
+	var c harness.Case
+	if err := json.Unmarshal(b, &c); err != nil {
+		die(err)
+	}
+	st := harness.NewStats()
+	p := propertyByID(c.Property, st)
+	if p == nil {
+		die(fmt.Errorf("unknown property %q in replay file", c.Property))
+	}
+	e, err := harness.Build(repo, verif)
+	if err != nil {
+		die(err)
+	}
+	defer e.Close()
+	if err := p.Prepare(e, "replay", c.Seed); err != nil {
+		die(err)
+	}
+	out, err := p.Evaluate(e, &c)
+	if err != nil {
+		die(err)
+	}
+	want := ""
+	if c.Verdict != nil {
+		want = c.Verdict.Signature
+	}
+	for _, f := range out.Findings {
+		if want == "" || f.Signature == want {
+			fmt.Printf("VIOLATION property=%s replay=%s\n  signature: %s\n  detail: %s\n", c.Property, file, f.Signature, f.Detail)
+			e.Close()
+			return 1
+		}
+	}
+	fmt.Printf("not reproduced: %s (%d other finding(s))\n", want, len(out.Findings))
+	for _, f := range out.Findings {
+		fmt.Printf("  other: %s\n", f.Signature)
+	}
+	return 0
+}
+
+// selftest: determinism (same scenario => same observable and same journal,
+// across repetitions, GOMAXPROCS 1/4/16 and whatever else runs on the host)
+// and fidelity.
+func selftest(repo, verif string, n int) int {
+	e, err := harness.Build(repo, verif)
+	if err != nil {
+		die(err)
+	}
+	defer e.Close()
+	seed := seedFromEnv()
+	if _, err := harness.FidelityGate(e, seed); err != nil {
+		die(err)
+	}
+	bad, total, err := harness.DeterminismSelfTest(e, seed, n)
+	if err != nil {
+		die(err)
+	}
+	fmt.Printf("selftest: %d scenarios x 6 executions, %d disagreements\n", total, bad)
+	if bad > 0 {
+		e.Close()
+		return 2
+	}
+	return 0
 }
